@@ -26,7 +26,9 @@ def st_case(draw) -> Dict[str, Any]:
     net = draw(st.sampled_from(["gen", "gen", "gen", "denver"]))
     g = draw(graphs.st_graph(5, 14, arbitrary_lengths=draw(st.booleans()), scales=(1, 1, 1, 3, 10))) if net == "gen" else None
     pairs = draw(st.lists(st.tuples(st.integers(0, 1000), st.integers(0, 1000)).map(list), min_size=1, max_size=12))
-    return {"net": net, "graph": g, "pairs": pairs}
+    # the location resolution is configuration (sim_h3_resolution, default 15): coarser grids put the two ends of short
+    # links into one cell
+    return {"net": net, "graph": g, "pairs": pairs, "res": draw(st.sampled_from([15, 15, 15, 13, 12])) if net != "hav" else 15}
 
 
 def check_case(case: Dict[str, Any]) -> Tuple[List[Violation], Set[str], Dict[str, int]]:
@@ -35,7 +37,7 @@ def check_case(case: Dict[str, Any]) -> Tuple[List[Violation], Set[str], Dict[st
     out: List[Violation] = []
     flags: Set[str] = set()
     stats = collections.Counter()
-    rn = graphs.denver_network() if case["net"] == "denver" else graphs.build_network(case["graph"])
+    rn = graphs.denver_network(res=case.get("res", 15)) if case["net"] == "denver" else graphs.build_network(case["graph"], res=case.get("res", 15))
     edges = graphs.edge_table(rn)
     links = graphs.sorted_links(rn)
     for pi, (ai, bi) in enumerate(case["pairs"]):
